@@ -416,6 +416,7 @@ class Rig:
         self.orig_encode = self.hooks.wrap_encoder(self.driver.encoder)
         self.njobs = 0
         self.deep = False
+        self.threads: List[threading.Thread] = []
         self.futs: List[Any] = []
         self.versions: List[dict] = []  # canonical in-memory state per version
         self.chunks: List[List[str]] = []  # what encoder.persist writes for that version
@@ -508,6 +509,25 @@ class Rig:
             raise Hung(f"persist() did not return within {HANG_S:.0f} s")
         return box["r"]
 
+    def spawn_job(self):
+        """driver.persist() from some other thread, not preceded by a pairing change (what
+        config_changed() does), running concurrently with the background jobs."""
+        jid = self.njobs
+        self.njobs += 1
+        with self.hooks.loglock:
+            self.hooks.log.append((jid, "spawn", "ok"))
+        fn = self._job_fn(self.driver.persist, jid)
+
+        def target():
+            try:
+                fn()
+            except Exception:  # noqa: BLE001
+                pass
+
+        t = threading.Thread(target=target, daemon=True)
+        t.start()
+        self.threads.append(t)
+
     def mutate(self, op):
         """A pairing change through the public driver API, on the loop thread."""
 
@@ -534,6 +554,10 @@ class Rig:
                 self.loop.run_until_complete(wait())
             except asyncio.TimeoutError:
                 raise Hung(f"background save jobs did not finish within {HANG_S:.0f} s") from None
+        for t in self.threads:
+            t.join(HANG_S)
+            if t.is_alive():
+                raise Hung(f"a direct persist() call did not return within {HANG_S:.0f} s")
 
     def close(self):
         try:
@@ -995,7 +1019,8 @@ def pause_points(nwrites: int) -> List[Optional[list]]:
 
 
 def schedule_case(ctx: Ctx, scn: dict, cmds: List[list], model_cases: list, timeout=0.15, faults=(), verbose=False):
-    """cmds: ["mut", op] (pairing change through driver.pair/unpair -> a background job),
+    """cmds: ["mut", op] (pairing change through driver.pair/unpair -> a background job), ["save"] (a direct
+    driver.persist() from another thread, as config_changed() does),
     ["run", j, [point, nth] | None] (let job j run until it is about to perform that call / to its end).
     Returns per-run results.  At the end everything is released and awaited."""
     if getattr(ctx, "hung", False):
@@ -1011,6 +1036,9 @@ def schedule_case(ctx: Ctx, scn: dict, cmds: List[list], model_cases: list, time
             for c in cmds:
                 if c[0] == "mut":
                     rig.mutate(c[1])
+                    results.append("job%d" % (rig.njobs - 1))
+                elif c[0] == "save":
+                    rig.spawn_job()
                     results.append("job%d" % (rig.njobs - 1))
                 else:
                     _, j, until = c
@@ -1058,7 +1086,7 @@ def schedule_case(ctx: Ctx, scn: dict, cmds: List[list], model_cases: list, time
         mc.update(stream="schedule", case={"scenario": scn["name"], "cmds": cmds, "faults": [list(f) for f in faults]}, target=rig.read_target(), temps=temps, crash=False)
         model_cases.append(mc)
         if verbose:
-            print("forced steps:", list(zip([c[0:3] if c[0] == "run" else ["mut", c[1]["op"]] for c in cmds], results)))
+            print("forced steps:", list(zip([c[0:3] if c[0] != "mut" else ["mut", c[1]["op"]] for c in cmds], results)))
             print("events:", [f"{j}:{p}" if j is not None else p for j, p, _ in rig.hooks.log if p != "write"])
         return results, rig.hooks.log
     except Hung as ex:
@@ -1125,7 +1153,10 @@ def schedule_stream(ctx: Ctx, model_cases: list):
         pending = list(ops)
         while pending:
             if njobs == 0 or rng.random() < 0.45:
-                cmds.append(["mut", pending.pop(0)])
+                if njobs and rng.random() < 0.2:
+                    cmds.append(["save"])  # a save that no pairing change asked for
+                else:
+                    cmds.append(["mut", pending.pop(0)])
                 njobs += 1
             else:
                 cmds.append(["run", rng.randrange(njobs), rng.choice(pts)])
